@@ -15,8 +15,9 @@ CONSTANTS Kind0,      \* kind of the object at construction
 Kinds == IF Rehousing THEN {"high", "low", "default"} ELSE {}
 
 \* small valid configurations: shards are added and coded
-SmallCfgs1 == {<<2, 1, 64>>, <<1, 2, 64>>, <<2, 3, 2>>, <<3, 2, 130>>, <<2, 2, 66>>, <<1, 1, 2>>}
-              \cup (IF Big THEN {<<3, 3, 64>>, <<4, 1, 6>>, <<1, 4, 192>>} ELSE {})
+\* shapes: k <, =, > chunk size m = NPot(r) resp. NPot(k); r a power of two or not; partial last chunks; 1..3 blocks per shard
+SmallCfgs1 == {<<2, 1, 64>>, <<1, 2, 64>>, <<2, 3, 2>>, <<3, 2, 130>>, <<2, 2, 66>>, <<1, 1, 2>>, <<3, 3, 6>>}
+              \cup (IF Big THEN {<<4, 1, 6>>, <<1, 4, 192>>, <<5, 3, 4>>} ELSE {})
 SmallCfgs == {<<c[1], c[2], c[3] * Scale>> : c \in SmallCfgs1}
 \* large configurations at the envelope boundary: reset / rehouse only (valid for some kinds only)
 LargeCfgs == {<<61440, 4096, 2>>, <<4096, 61440, 2>>, <<32768, 32768, 2>>, <<49152, 16384, 4>>, <<16384, 49152, 4>>}
